@@ -101,6 +101,18 @@ pub fn atoms() -> Vec<E> {
     a.push(cmp(ar(E::Neg(Box::new(k())), Add, int(1)), Eq, int(-1)));
     a.push(E::Lit(Val::Bool(true)));
     a.push(E::Lit(Val::Bool(false)));
+    // multiplicative chains with / and % : same precedence as *, left-associative; every grouping of three
+    // operands in both association shapes (the right-nested ones are printed with their parentheses)
+    for (o1, o2) in [(Div, Mul), (Mul, Div), (Div, Div), (Mod, Mul), (Div, Mod), (Mul, Mod)] {
+        a.push(cmp(ar(ar(ar(k(), Mul, int(4)), o1, int(3)), o2, int(2)), Ge, int(4)));
+        a.push(cmp(ar(ar(k(), Mul, int(4)), o1, ar(int(3), o2, int(2))), Ge, int(4)));
+    }
+    a.push(cmp(ar(k(), Sub, ar(int(6), Div, int(3))), Eq, int(1)));
+    a.push(cmp(ar(ar(k(), Add, int(4)), Div, int(2)), Eq, int(3)));
+    a.push(cmp(ar(int(12), Div, k()), Eq, int(3)));
+    a.push(cmp(ar(k(), Div, ar(v(), Add, int(1))), Eq, int(0)));
+    a.push(cmp(ar(E::Neg(Box::new(k())), Div, int(2)), Eq, int(-1)));
+    a.push(cmp(ar(E::Neg(Box::new(k())), Mod, int(4)), Eq, int(-1)));
     a
 }
 
@@ -109,6 +121,11 @@ pub fn core_atoms() -> Vec<E> {
     let all = atoms();
     let pick = [0usize, 1, 4, 12, 15, 16, 19, 27, 35, 39, 43, 48];
     pick.iter().filter_map(|i| all.get(*i).cloned()).collect()
+}
+
+/// wider subset for the thorough tier: every second atom
+pub fn wide_atoms() -> Vec<E> {
+    atoms().into_iter().step_by(2).collect()
 }
 
 fn triple_shapes(a: E, b: E, c: E) -> Vec<E> {
@@ -218,6 +235,18 @@ pub fn queries(group: &str) -> Vec<Query> {
                 }
             }
         }
+        "where-triples-wide" => {
+            let at = wide_atoms();
+            for a in &at {
+                for b in &at {
+                    for c in &at {
+                        for e in triple_shapes(a.clone(), b.clone(), c.clone()) {
+                            q.push(where_query(&e));
+                        }
+                    }
+                }
+            }
+        }
         "select-list" => {
             use ArOp::*;
             let exprs: Vec<E> = vec![
@@ -233,8 +262,19 @@ pub fn queries(group: &str) -> Vec<Query> {
                 ar(ar(k(), Add, int(1)), Mul, ar(k(), Sub, int(1))),
                 int(7),
                 null(),
+                ar(k(), Div, int(2)),
+                ar(ar(k(), Mul, int(3)), Mod, int(4)),
+                ar(ar(v(), Div, int(3)), Mul, int(3)),
             ];
             let rows = t_rows();
+            // decimal literals: `2.0` and `2.5` are not integers (k / 2.0 is 0.5, 1.0, 1.5, ...)
+            for (lit_, tag) in [(2.0f64, "decimal-literal-zero-fraction"), (2.5, "decimal-literal")] {
+                for op in [Div, Mul, Add] {
+                    let e = ar(k(), op, E::Lit(Val::real(lit_)));
+                    let exp: Result<Vec<Vec<Val>>, String> = rows.iter().map(|r| Ok(vec![r[0].clone(), eval(&e, r)?])).collect();
+                    q.push(Query { sql: format!("SELECT k, {} FROM t", render(&e)), expect: exp, ordered: false, tie_groups: None, tags: vec![tag] });
+                }
+            }
             for a in &exprs {
                 for b in &exprs {
                     let exp: Result<Vec<Vec<Val>>, String> = rows.iter().map(|r| Ok(vec![eval(a, r)?, eval(b, r)?])).collect();
@@ -651,7 +691,7 @@ fn with_db<T>(f: impl FnOnce(&mut Db) -> T) -> Result<T, String> {
 }
 
 pub fn classify_tags(tags: &[&'static str], listed: &[String]) -> Option<String> {
-    let map: BTreeMap<&str, &str> = [("right-join", "KF-right-join-drops-unmatched")].into_iter().collect();
+    let map: BTreeMap<&str, &str> = [("right-join", "KF-right-join-drops-unmatched"), ("decimal-literal-zero-fraction", "KF-decimal-literal-with-zero-fraction-is-an-integer")].into_iter().collect();
     for t in tags {
         if let Some(id) = map.get(t) {
             if listed.iter().any(|l| l == id) {
